@@ -2352,6 +2352,188 @@ theorem C01_gadget_min (res a : Var) (t : List Var) (ctx : Ctx) (B : Bnds) (n : 
       · simp [hp] at hc
 
 
+/-! ## unary encoding -/
+
+theorem uencOK_zero (y : Asg) (w : Rat) (k : Int) (flags : List Var) (hz : ∀ f ∈ flags, y f = 0)
+    (hw : w < (k : Rat)) : uencOK y w k flags := by
+  induction flags generalizing k with
+  | nil => trivial
+  | cons f t ih =>
+    refine ⟨?_, ih (k + 1) (fun g hg => hz g (by simp [hg])) (by push_cast; grind)⟩
+    rw [hz f (by simp)]
+    constructor
+    · intro h; exact absurd h (by grind)
+    · intro h; rw [h] at hw; exact absurd hw (by grind)
+
+theorem uencLin_zero (y : Asg) (k : Int) (flags : List Var) (hz : ∀ f ∈ flags, y f = 0) :
+    evalLin y (uencLin k flags) = 0 := by
+  induction flags generalizing k with
+  | nil => rfl
+  | cons f t ih =>
+    simp only [uencLin, evalLin_cons, hz f (by simp), ih (k + 1) (fun g hg => hz g (by simp [hg]))]; grind
+
+theorem all_zero_of_sum (y : Asg) (flags : List Var) (hb : ∀ f ∈ flags, y f = 0 ∨ y f = 1)
+    (hs : evalLin y (ones flags) = 0) : ∀ f ∈ flags, y f = 0 := by
+  induction flags with
+  | nil => simp
+  | cons f t ih =>
+    have hbt : ∀ g ∈ t, y g = 0 ∨ y g = 1 := fun g hg => hb g (by simp [hg])
+    have bt := sum_bin_bounds y t hbt
+    simp only [ones_cons, evalLin_cons] at hs
+    intro g hg
+    simp only [List.mem_cons] at hg
+    rcases hb f (by simp) with h0 | h0
+    · rw [h0] at hs
+      rcases hg with hg | hg
+      · subst hg; exact h0
+      · exact ih hbt (by grind) g hg
+    · rw [h0] at hs; exact absurd hs (by grind)
+
+/-- soundness: exactly-one + weighted-sum rows make every flag the reification of `w = value` and put `w` in range -/
+theorem uenc_sound (y : Asg) (w : Rat) (k : Int) (flags : List Var) (hb : ∀ f ∈ flags, y f = 0 ∨ y f = 1)
+    (h1 : evalLin y (ones flags) = 1) (h2 : evalLin y (uencLin k flags) = w) :
+    uencOK y w k flags ∧ (k : Rat) ≤ w := by
+  induction flags generalizing k with
+  | nil => simp at h1
+  | cons f t ih =>
+    have hbt : ∀ g ∈ t, y g = 0 ∨ y g = 1 := fun g hg => hb g (by simp [hg])
+    simp only [ones_cons, evalLin_cons] at h1
+    simp only [uencLin, evalLin_cons] at h2
+    rcases hb f (by simp) with h0 | h0
+    · rw [h0] at h1 h2
+      have i := ih (k + 1) hbt (by grind) (by grind)
+      have hk : ((k + 1 : Int) : Rat) = (k : Rat) + 1 := by push_cast; rfl
+      rw [hk] at i
+      refine ⟨⟨?_, i.1⟩, by grind⟩
+      rw [h0]
+      constructor
+      · intro h; exact absurd h (by grind)
+      · intro h; have := i.2; rw [h] at this; exact absurd this (by grind)
+    · rw [h0] at h1 h2
+      have hz := all_zero_of_sum y t hbt (by grind)
+      have hl := uencLin_zero y (k + 1) t hz
+      rw [hl] at h2
+      have hw : w = (k : Rat) := by grind
+      refine ⟨⟨?_, ?_⟩, by grind⟩
+      · rw [h0]; constructor
+        · intro _; exact hw
+        · intro _; rfl
+      · apply uencOK_zero y w (k + 1) t hz; rw [hw]; push_cast; grind
+
+/-- completeness: if every flag is the reification of `w = value` and `w` is one of the encoded values, both rows hold -/
+theorem uenc_complete (y : Asg) (w : Rat) (k : Int) (flags : List Var) (hb : ∀ f ∈ flags, y f = 0 ∨ y f = 1)
+    (hok : uencOK y w k flags) (i : Nat) (hi : i < flags.length) (hw : w = ((k + (i : Int) : Int) : Rat)) :
+    evalLin y (ones flags) = 1 ∧ evalLin y (uencLin k flags) = w := by
+  induction flags generalizing k i with
+  | nil => simp at hi
+  | cons f t ih =>
+    have hbt : ∀ g ∈ t, y g = 0 ∨ y g = 1 := fun g hg => hb g (by simp [hg])
+    obtain ⟨hf, hrest⟩ := hok
+    simp only [ones_cons, uencLin, evalLin_cons]
+    cases i with
+    | zero =>
+      have hwk : w = (k : Rat) := by rw [hw]; simp
+      have hf1 : y f = 1 := hf.mpr hwk
+      -- all later flags are zero: their values are > k = w
+      have hz : ∀ g ∈ t, y g = 0 := by
+        have : ∀ (k' : Int) (l : List Var), (∀ g ∈ l, y g = 0 ∨ y g = 1) → uencOK y w k' l → w < (k' : Rat) →
+            ∀ g ∈ l, y g = 0 := by
+          intro k' l
+          induction l generalizing k' with
+          | nil => simp
+          | cons g l' ihl =>
+            intro hbl hokl hlt g' hg'
+            simp only [List.mem_cons] at hg'
+            obtain ⟨hg, hr⟩ := hokl
+            rcases hg' with hg' | hg'
+            · subst hg'
+              rcases hbl g' (by simp) with h | h
+              · exact h
+              · have := hg.mp h; rw [this] at hlt; exact absurd hlt (by grind)
+            · exact ihl (k' + 1) (fun a ha => hbl a (by simp [ha])) hr (by push_cast; grind) g' hg'
+        exact this (k + 1) t hbt hrest (by rw [hwk]; push_cast; grind)
+      have s0 := sum_bin_none y t hbt (by
+        rw [List.any_eq_false]; intro g hg; simp [hz g hg])
+      rw [hf1, s0, uencLin_zero y (k + 1) t hz, hwk]; grind
+    | succ j =>
+      have hne : ¬ w = (k : Rat) := by
+        rw [hw]; intro h
+        have : (k + ((j + 1 : Nat) : Int)) = k := by exact_mod_cast h
+        omega
+      have hf0 : y f = 0 := by
+        rcases hb f (by simp) with h | h
+        · exact h
+        · exact absurd (hf.mp h) hne
+      have := ih (k + 1) hbt hrest j (by simpa using hi) (by rw [hw]; congr 1; omega)
+      rw [hf0, this.1, this.2]; grind
+
+/-- `CreateUnaryEncoding`: with binary flags and `v` an integer of the encoded range, the two rows hold iff every flag
+is the reification of `v = its value` -/
+theorem C01_gadget_unary_encoding (v : Var) (lb : Int) (flags : List Var) (y : Asg)
+    (hb : ∀ f ∈ flags, y f = 0 ∨ y f = 1)
+    (hv : ∃ i : Nat, i < flags.length ∧ y v = ((lb + (i : Int) : Int) : Rat)) :
+    (∀ c ∈ (gUnaryEnc v lb flags).cons, c.sat y) ↔ uencOK y (y v) lb flags := by
+  simp only [gUnaryEnc, List.mem_cons, List.not_mem_nil, or_false, forall_eq_or_imp, forall_eq, Con.sat, Cmp.holds,
+    evalLin_append, evalLin_cons, evalLin_nil]
+  constructor
+  · intro ⟨h1, h2⟩
+    exact (uenc_sound y (y v) lb flags hb h1 (by grind)).1
+  · intro hok
+    obtain ⟨i, hi, hw⟩ := hv
+    have := uenc_complete y (y v) lb flags hb hok i hi hw
+    exact ⟨this.1, by rw [this.2]; grind⟩
+
+/-- the rows alone already force `v` into the encoded range and make it integral (no hypothesis on `v`) -/
+theorem C01_gadget_unary_encoding_sound (v : Var) (lb : Int) (flags : List Var) (y : Asg)
+    (hb : ∀ f ∈ flags, y f = 0 ∨ y f = 1) (hc : ∀ c ∈ (gUnaryEnc v lb flags).cons, c.sat y) :
+    uencOK y (y v) lb flags ∧ (lb : Rat) ≤ y v := by
+  simp only [gUnaryEnc, List.mem_cons, List.not_mem_nil, or_false, forall_eq_or_imp, forall_eq, Con.sat, Cmp.holds,
+    evalLin_append, evalLin_cons, evalLin_nil] at hc
+  exact uenc_sound y (y v) lb flags hb hc.1 (by grind)
+
+
+/-! ## product with a binary variable (mul.h), term level -/
+
+/-- `c·b·o = c·r` whenever `r = IfThen(b, o, zero)`, `b` is 0/1 and `zero` is fixed at 0: the linearised row has the
+same value as the quadratic one -/
+theorem C01_gadget_mul_binary_term (c : Rat) (b o zero r : Var) (lin : Lin) (y : Asg)
+    (hb : y b = 0 ∨ y b = 1) (hz : y zero = 0) (hr : y r = Fun.val y (.ifthen b o zero)) :
+    evalLin y (lin ++ [(c, r)]) = evalLin y lin + evalQuad y [(c, b, o)] := by
+  simp only [evalLin_append, evalLin_cons, evalLin_nil, evalQuad, hr, Fun.val]
+  rcases hb with h | h <;> simp [h, hz] <;> grind
+
+/-- the step's functional constraint is realizable for every point (fresh result variable within the
+preprocessed if-then bounds when `o` respects its bounds) -/
+theorem C01_gadget_mul_binary_term_realizable (b o zero : Var) (B : Bnds) (n : Nat) (x : Asg)
+    (hbn : b < n) (hon : o < n) (hzn : zero < n) (hb : x b = 0 ∨ x b = 1) (hz : x zero = 0) (hd : inDom B x o) :
+    (gMulBinTerm b o zero B n).realizable n x := by
+  refine ⟨fun v => if v = n then (if x b = 1 then x o else 0) else x v, ?_, ?_, ?_⟩
+  · intro v hv; simp [Nat.ne_of_lt hv]
+  · simp only [gMulBinTerm, auxOk, and_true, if_true]
+    refine ⟨?_, ?_, ?_⟩
+    · intro l hl
+      cases h1 : (B o).lb with
+      | none => simp [h1] at hl
+      | some l1 =>
+        simp [h1] at hl; subst hl
+        have := hd.1 l1 h1
+        split <;> split <;> grind
+    · intro u hu
+      cases h1 : (B o).ub with
+      | none => simp [h1] at hu
+      | some u1 =>
+        simp [h1] at hu; subst hu
+        have := hd.2.1 u1 h1
+        split <;> split <;> grind
+    · intro hi
+      split
+      · exact hd.2.2 hi
+      · exact isIntVal_zero
+  · have e1 : b ≠ n := Nat.ne_of_lt hbn
+    have e2 : o ≠ n := Nat.ne_of_lt hon
+    have e3 : zero ≠ n := Nat.ne_of_lt hzn
+    simp [gMulBinTerm, Con.sat, rel, req, Ctx.eff, Fun.val, e1, e2, e3, hz]
+
 /-!
 ## Stage 2 (NOT proved here beyond the single-nesting fragment above): composition
 
@@ -2368,8 +2550,8 @@ What is missing for the whole-model theorem:
 * the fragment proved above (`C01_compose_root_range_single_partial`, instance `C01_compose_example_abs`) covers one
   functional constraint nested once under a root linear range constraint; nesting depth > 1, shared subexpressions,
   several result variables in one body, logical roots and objectives are not covered;
-* gadgets not yet modelled: alldiff/unary encoding, complementarity, PL→SOS2, SOS2→ZZI, pow, general
-  products; modelled and correspondence-checked without theorem: count with non-binary arguments, implication with fixed-true result.
+* gadgets not yet modelled: alldiff rows over the unary flags, complementarity, PL→SOS2, SOS2→ZZI, pow, general
+  products (unary encoding and the binary-product term step are modelled and proved but not correspondence-checked per gadget); modelled and correspondence-checked without theorem: count with non-binary arguments, implication with fixed-true result.
 Until then whole-model equivalence is *validated per run* by checks/c01.py (projection-equivalence
 oracle on generated models), not proved.
 -/
